@@ -287,7 +287,8 @@ def gen_c11(tier, rng):
     ncase = 40 if tier == "quick" else 400
     for kind in kinds:
         for d in ("req", "rsp"):
-            fixed = {"bin": [b"{}", b"{\x01}", b"xx{}yy", b"}{", b"{{", b"}", b"{\x01\x03}", b"{}{}"],
+            fixed = {"bin": [b"{}", b"{\x01}", b"xx{}yy", b"}{", b"{{", b"}", b"{\x01\x03}", b"{}{}", b"{}}", b"{\x01}}", b"{\x01\x06\x00\x01}}\x00",
+                             b"{}}{"],
                      "ascii": [b":\r\n", b"::", b":0\r\n", b"\r\n:", b":\r", b":01\r\n", b":0103\r\n:", b"\n"],
                      "rtu": [b"\x00", b"\x01", b"\x01\x03", b"\x01\x10\x00", b"\xff\xff\xff", b"\x01\x18", b"\x01\x2b\x0e"]}[kind]
             for c in range(ncase):
